@@ -92,6 +92,10 @@ def unit_sets(tier):
     for f in ('bluetoe/bindings/nordic/nrf52/security_tool_box.cpp', 'bluetoe/bindings/nordic/nrf52/nrf52.cpp'):
         if os.path.exists(os.path.join(VERIF, 'stubs', 'nrf.h')):
             units['nrf_' + os.path.basename(f)[:-4]] = (os.path.join(REPO, f), BASE_INC + ['-I' + REPO + '/bluetoe/bindings/nordic/uECC', '-fms-extensions'] + BASE_FLAGS)
+    # the ECC library of the nRF binding (C): the public key validation the security tool box delegates to
+    uecc = os.path.join(REPO, 'bluetoe/bindings/nordic/uECC/uECC.c')
+    if os.path.exists(uecc):
+        units['c_uecc'] = (uecc, ['-x', 'c', '-std=gnu99', '-I' + os.path.dirname(uecc), '-Wno-everything'])
     if tier == 'thorough':
         for f, flags in compile_db().items():
             if '/tests/' in f:
